@@ -32,6 +32,16 @@ Definition parse_ll (ds : list docarg) : option llist :=
   | _ => None
   end.
 
+(* well-formedness beyond the section order: the variable after &rest is a plain symbol, without a default
+   (slip's DefLambda accepts (&rest (r 5)) and then uses 5 as the value of an empty rest list) *)
+Fixpoint rest_plain (ds : list docarg) : bool :=
+  match ds with
+  | d :: ds' => (match d_name d, ds' with
+                 | PRest, d2 :: _ => match d_def d2 with Some _ => false | None => true end
+                 | _, _ => true end) && rest_plain ds'
+  | [] => true
+  end.
+
 (* positional: required *)
 Fixpoint bind_req (xs : list N) (args : list arg) : option (list (N * value) * list arg) :=
   match xs with
@@ -88,23 +98,32 @@ Definition bind_S (l : llist) (args : list arg) : outcome :=
 (* ---- the guard ---- *)
 Definition no_dup_keys (ps : list (N * arg)) : bool :=
   (fix go ps := match ps with [] => true | (k, _) :: ps' => negb (existsb (fun p => N.eqb (fst p) k) ps') && go ps' end) ps.
+(* an argument that &rest may collect when the lambda list has no &key: the code leaves rest mode at ANY
+   keyword naming a later parameter, and without &key the only later parameters are the &aux ones *)
+Definition rest_arg_ok (aux : list (N * option Z)) (a : arg) : bool :=
+  match a with AKw k => negb (existsb (fun xd => N.eqb (fst xd) k) aux) | _ => true end.
+Definition guard_l (l : llist) (args : list arg) : bool :=
+  (length (l_req l) <=? length args) &&
+  (* &rest together with &key: the code's rest list stops at the first known keyword *)
+  negb (match l_rest l, l_key l with Some _, Some _ => true | _, _ => false end) &&
+  negb (l_allow l) &&
+  (* &rest with &aux: the code's rest list stops at a keyword that names an &aux parameter *)
+  (match l_rest l, l_key l with
+   | Some _, None => forallb (rest_arg_ok (l_aux l)) (skipn (length (l_req l) + length (l_opt l)) args)
+   | _, _ => true end) &&
+  match l_key l with
+  | None => true
+  | Some ks =>
+      let r2 := skipn (length (l_req l) + length (l_opt l)) args in
+      match key_pairs (S (length r2)) r2 with
+      | Some ps => forallb (fun p => existsb (fun kd => N.eqb (fst kd) (fst p)) ks) ps && no_dup_keys ps
+      | None => match r2 with (AInt _ | ANil) :: _ => true | _ => (length r2 <? 1) end    (* a non-keyword first: both reject *)
+      end
+  end.
 Definition in_domain (ds : list docarg) (args : list arg) : bool :=
   match parse_ll ds with
   | None => false
-  | Some l =>
-      (length (l_req l) <=? length args) &&
-      (* &rest together with &key: the code's rest list stops at the first known keyword *)
-      negb (match l_rest l, l_key l with Some _, Some _ => true | _, _ => false end) &&
-      negb (l_allow l) &&
-      match l_key l with
-      | None => true
-      | Some ks =>
-          let r2 := skipn (length (l_req l) + length (l_opt l)) args in
-          match key_pairs (S (length r2)) r2 with
-          | Some ps => forallb (fun p => existsb (fun kd => N.eqb (fst kd) (fst p)) ks) ps && no_dup_keys ps
-          | None => match r2 with (AInt _ | ANil) :: _ => true | _ => (length r2 <? 1) end    (* a non-keyword first: both reject *)
-          end
-      end
+  | Some l => guard_l l args
   end.
 
 (* ---- comparing outcomes ---- *)
